@@ -83,6 +83,95 @@ pub mod unit_hmc {
         &&& step_rows::<B, G>(pre, post, own_momenta(state(pre.rng), n, d), own_uniforms(s1, n))
         &&& state(post.rng) == unif_state(s1, n as nat)
     }
+    // ---- C02: time reversibility of the leapfrog integrator (exact in the real model, hence "up to rounding") ----
+    pub open spec fn vfin(a: V) -> bool { forall |i: int| 0 <= i < a.len() ==> (#[trigger] a[i]) is Fin }
+    /// a gradient law the reversibility statement needs: finite gradients of the right length at finite points
+    pub open spec fn grad_ok<B: AutodiffBackend, G: BatchedGradientTarget<B>>(t: &G, d: nat) -> bool {
+        forall |x: V| #![trigger t.grad(x)] x.len() == d && vfin(x) ==> t.grad(x).len() == d && vfin(t.grad(x))
+    }
+    /// one leapfrog step maps finite (x, p) to finite (x', p') and is undone by one step from (x', -p')
+    pub proof fn lemma_verlet_reversible<B: AutodiffBackend, G: BatchedGradientTarget<B>>(t: &G, eps: XR, h: XR, x: V, p: V)
+        requires eps is Fin, h is Fin, x.len() == p.len(), vfin(x), vfin(p), grad_ok::<B, G>(t, x.len())
+        ensures ({
+            let (x1, p1) = verlet::<B, G>(t, eps, h, x, p);
+            &&& x1.len() == x.len() && p1.len() == x.len() && vfin(x1) && vfin(p1)
+            &&& verlet::<B, G>(t, eps, h, x1, vneg(p1)).0 =~= x
+            &&& verlet::<B, G>(t, eps, h, x1, vneg(p1)).1 =~= vneg(p)
+        })
+    {
+        let g0 = t.grad(x);
+        let pa = vadd(p, vscale(g0, h));
+        let x1 = vadd(x, vscale(pa, eps));
+        assert(vfin(pa)) by { assert forall |i: int| 0 <= i < pa.len() implies (#[trigger] pa[i]) is Fin by { assert(g0[i] is Fin); } }
+        assert(vfin(x1)) by { assert forall |i: int| 0 <= i < x1.len() implies (#[trigger] x1[i]) is Fin by { assert(pa[i] is Fin); } }
+        let g1 = t.grad(x1);
+        let p1 = vadd(pa, vscale(g1, h));
+        assert(vfin(p1)) by { assert forall |i: int| 0 <= i < p1.len() implies (#[trigger] p1[i]) is Fin by { assert(g1[i] is Fin); assert(pa[i] is Fin); } }
+        // backwards from (x1, -p1)
+        let qa = vadd(vneg(p1), vscale(g1, h));
+        assert(qa =~= vneg(pa)) by {
+            assert forall |i: int| 0 <= i < qa.len() implies qa[i] == vneg(pa)[i] by { assert(g1[i] is Fin); assert(pa[i] is Fin); }
+        }
+        let xb = vadd(x1, vscale(qa, eps));
+        assert(xb =~= x) by {
+            assert forall |i: int| 0 <= i < xb.len() implies xb[i] == x[i] by {
+                assert(pa[i] is Fin); assert(x[i] is Fin);
+                let a = pa[i]->Fin_0; let e = eps->Fin_0;
+                assert((-a) * e == -(a * e)) by(nonlinear_arith);
+            }
+        }
+        assert(t.grad(xb) == g0);
+        let qb = vadd(qa, vscale(t.grad(xb), h));
+        assert(qb =~= vneg(p)) by {
+            assert forall |i: int| 0 <= i < qb.len() implies qb[i] == vneg(p)[i] by { assert(g0[i] is Fin); assert(p[i] is Fin); assert(pa[i] is Fin); }
+        }
+    }
+    /// L steps forward then L steps from (x', -p') return to (x, -p)
+    pub proof fn lemma_verlet_n_reversible<B: AutodiffBackend, G: BatchedGradientTarget<B>>(t: &G, eps: XR, h: XR, x: V, p: V, n: nat)
+        requires eps is Fin, h is Fin, x.len() == p.len(), vfin(x), vfin(p), grad_ok::<B, G>(t, x.len())
+        ensures ({
+            let (x1, p1) = verlet_n::<B, G>(t, eps, h, x, p, n);
+            &&& x1.len() == x.len() && p1.len() == x.len() && vfin(x1) && vfin(p1)
+            &&& verlet_n::<B, G>(t, eps, h, x1, vneg(p1), n).0 =~= x           // [C02.leapfrog_time_reversible_in_exact_arithmetic]
+            &&& verlet_n::<B, G>(t, eps, h, x1, vneg(p1), n).1 =~= vneg(p)
+        })
+        decreases n
+    {
+        if n == 0 {
+        } else {
+            // forward: n-1 steps then one step
+            let (xa, pa) = verlet_n::<B, G>(t, eps, h, x, p, (n - 1) as nat);
+            lemma_verlet_n_reversible::<B, G>(t, eps, h, x, p, (n - 1) as nat);
+            lemma_verlet_reversible::<B, G>(t, eps, h, xa, pa);
+            let (x1, p1) = verlet::<B, G>(t, eps, h, xa, pa);
+            // backward from (x1, -p1): first step returns to (xa, -pa), then n-1 steps return to (x, -p)
+            lemma_verlet_n_first_step::<B, G>(t, eps, h, x1, vneg(p1), n);
+            let (xb, pb) = verlet::<B, G>(t, eps, h, x1, vneg(p1));
+            assert(xb =~= xa && pb =~= vneg(pa));
+            assert(vneg(vneg(pa)) =~= pa) by { assert forall |i: int| 0 <= i < pa.len() implies vneg(vneg(pa))[i] == pa[i] by { assert(pa[i] is Fin); } }
+        }
+    }
+    /// verlet_n unfolds at the front as well: n steps = one step followed by n-1 steps
+    pub proof fn lemma_verlet_n_first_step<B: AutodiffBackend, G: BatchedGradientTarget<B>>(t: &G, eps: XR, h: XR, x: V, p: V, n: nat)
+        requires n >= 1
+        ensures ({ let (x1, p1) = verlet::<B, G>(t, eps, h, x, p); verlet_n::<B, G>(t, eps, h, x, p, n) == verlet_n::<B, G>(t, eps, h, x1, p1, (n - 1) as nat) })
+        decreases n
+    {
+        reveal_with_fuel(verlet_n, 3);
+        let (x1, p1) = verlet::<B, G>(t, eps, h, x, p);
+        if n > 1 {
+            lemma_verlet_n_first_step::<B, G>(t, eps, h, x, p, (n - 1) as nat);
+            let a = verlet_n::<B, G>(t, eps, h, x, p, (n - 1) as nat);
+            let b = verlet_n::<B, G>(t, eps, h, x1, p1, (n - 2) as nat);
+            assert(a == b);
+            assert(verlet_n::<B, G>(t, eps, h, x, p, n) == verlet::<B, G>(t, eps, h, a.0, a.1));
+            assert(verlet_n::<B, G>(t, eps, h, x1, p1, (n - 1) as nat) == verlet::<B, G>(t, eps, h, b.0, b.1));
+        } else {
+            assert(verlet_n::<B, G>(t, eps, h, x, p, 0) == (x, p));
+            assert(verlet_n::<B, G>(t, eps, h, x1, p1, 0) == (x1, p1));
+        }
+    }
+
     // ---- C14: a trajectory ending at zero / undefined density is rejected (acceptance draws equal to exactly 0 excepted) ----
     pub open spec fn bad_density(a: XR) -> bool { a is NaN || a is NegInf }
     pub proof fn lemma_hmc_row_rejects_zero_density<B: AutodiffBackend, G: BatchedGradientTarget<B>>(t: &G, eps: XR, l: nat, x: V, p: V, u: XR, out: V)
